@@ -218,6 +218,9 @@ func (_this *RulesEventReceiver) OnUID(value []byte) {
 }
 
 func (_this *RulesEventReceiver) OnTime(value compact_time.Time) {
+	if err := value.Validate(); err != nil {
+		panic(err)
+	}
 	if value.Timezone.Type == compact_time.TimezoneTypeAreaLocation {
 		_this.context.ValidateAreaLocation(value.Timezone.LongAreaLocation)
 	}
